@@ -12,7 +12,7 @@ Sel(kind, n) ==
   CASE kind = "tail" -> [j \in 1..(IF n > 0 THEN n - 1 ELSE 0) |-> j + 1]
     [] kind = "step" -> [j \in 1..((n + 1) \div 2) |-> 2 * j - 1]
     [] kind = "rev"  -> [j \in 1..n |-> n + 1 - j]
-    [] kind = "mask" -> [j \in 1..(n \div 2) |-> 2 * j]
+    [] kind \in {"mask", "lmask"} -> [j \in 1..(n \div 2) |-> 2 * j]
     [] kind = "list" -> IF n = 0 THEN <<>> ELSE <<n, 1, 1>>
     [] kind = "empty" -> <<>>
 Pick(s, idx) == [j \in DOMAIN idx |-> s[idx[j]]]
@@ -31,7 +31,7 @@ Room == Len(pool) < MaxPool /\ Len(prog) < MaxDepth
 CanDo == Len(prog) < MaxDepth
 New(t, op) == pool' = Append(pool, t) /\ prog' = Append(prog, op) /\ obs' = [kind |-> "table"]
 
-Index_   == "index" \in Ops /\ \E i \in DOMAIN pool : \E kind \in {"tail", "step", "rev", "mask", "list", "empty"} : Room /\
+Index_   == "index" \in Ops /\ \E i \in DOMAIN pool : \E kind \in {"tail", "step", "rev", "mask", "lmask", "list", "empty"} : Room /\
               LET idx == Sel(kind, NRowsOf(pool[i])) IN
               New([c \in DOMAIN pool[i] |-> Pick(pool[i][c], idx)], [op |-> "index", t |-> i, sel |-> kind]) /\ UNCHANGED nfresh
 Concat_  == "concat" \in Ops /\ \E i, k \in DOMAIN pool : Room /\ DOMAIN pool[i] = DOMAIN pool[k] /\
